@@ -1115,3 +1115,24 @@ def _m86():
         assert '(i for i in fwd.libs if i not in libs)' in src
         return src.replace('(i for i in fwd.libs if i not in libs)', 'set(fwd.libs) - set(libs)')
     advset.rewrite(bpc.PkgConfigInfo, 'finalize', edit)
+
+
+@mutant('check_cache_replays_when_inputs_newer')
+def _m87():
+    # find_check_cache: no early return when an explicit input is newer -- the old cached filters
+    # are replayed and pre-filled into the state of the regeneration that follows
+    from bfg9000.builtins import find as bf
+    _patch_source(bf, 'find_check_cache', """             for i in regen_files.outputs) ):
+        return
+
+    # Otherwise, check to see if any of the `find_files` calls have different
+    # results. If not, we can avoid regenerating.
+    regenerate = False
+""", """             for i in regen_files.outputs) ):
+        _forced = True
+    else:
+        _forced = False
+    # Otherwise, check to see if any of the `find_files` calls have different
+    # results. If not, we can avoid regenerating.
+    regenerate = _forced
+""")
